@@ -91,9 +91,10 @@ def check(idx, run):
     fors = [s for s in func.body if isinstance(s, ast.For)]
     if len(fors) != 1:
         raise AnalysisError("signature loop not found")
-    chain = [s for s in fors[0].body if isinstance(s, ast.If) and
-             "has_read_write" in ast.unparse(s.test)]
-    if len(chain) != 1:
+    chain = [s for s in fors[0].body if isinstance(s, ast.If) and any(
+        isinstance(a, ast.Assign) and
+        ast.unparse(a.targets[0]) == "access_dict" for a in ast.walk(s))]
+    if not chain:
         raise AnalysisError("the access classification chain was not found")
     run.check("C13.R1", ast.unparse(fors[0].iter) ==
               "var_info.all_signatures", cons, "all signatures classified",
@@ -158,7 +159,7 @@ def check(idx, run):
     skips = [ast.unparse(s.test) for s in fors[0].body
              if isinstance(s, ast.If) and any(isinstance(b, ast.Continue)
                                               for b in s.body) and
-             "has_read_write" not in ast.unparse(s.test)]
+             s not in chain]
     run.check("C13.R1", skips in (["isinstance(sym.datatype, ScalarType)"],
                                   ["isinstance(sym.datatype, ScalarType)",
                                    "not sig.is_structure"]), cons,
@@ -200,6 +201,25 @@ def check(idx, run):
                   f"{dname} -> {klass}",
                   f"the {dname} set (element {pos} of the result) is turned "
                   f"into {got}, expected {klass} over the same set",
+                  loc(dcls.module, ufunc))
+    from sa.cfg import CFG
+    ucfg = CFG(ufunc)
+    udom = ucfg.dominators().get(ucfg.exit.id, set())
+    for pos, dname in enumerate(order):
+        if pos >= len(names):
+            continue
+        tests = [n for n in ucfg.stmt_nodes() if n.kind == "test" and
+                 isinstance(n.ast, ast.If) and
+                 ast.unparse(n.ast.test) == names[pos]]
+        run.check("C13.R2", bool(tests) and any(t.id in udom
+                                                for t in tests),
+                  "ACCDataDirective._update_data_movement_clauses",
+                  f"the {dname} clause is regenerated on every path",
+                  f"_update_data_movement_clauses can return without "
+                  f"rebuilding the clause for the {dname} set from the new "
+                  f"analysis (an early exit keeps the old clauses): after "
+                  f"an edit that moves an array from one set to another the "
+                  f"directive keeps the stale clause",
                   loc(dcls.module, ufunc))
     txt = ast.unparse(ufunc)
     run.check("C13.R2", "self.children.remove(child)" in txt,
